@@ -164,9 +164,16 @@ VIS = {
     'head(3)': lambda v: util.rows_of(petl.head(v, 3)),
     'islice(5)': lambda v: list(itertools.islice(iter(v), 6)),
     'wrap[2]': lambda v: petl.wrap(v)[2],
+    'look-vrepr-truncate-width': lambda v: repr(petl.look(v, vrepr=str, truncate=3, width=40)),
+    'look-simple-index-header': lambda v: repr(petl.look(v, style='simple', index_header=True, limit=3)),
+    'see-vrepr-index-header': lambda v: repr(petl.see(v, vrepr=str, index_header=True)),
+    'look-config-vrepr-width': lambda v: _with_config('look_width', 30, lambda: _with_config('look_vrepr', str, lambda: repr(petl.look(v)))),
+    'see-config': lambda v: _with_config('see_limit', 2, lambda: _with_config('see_index_header', True, lambda: repr(petl.see(v)))),
+    'lookall-on-head': lambda v: repr(petl.lookall(petl.head(v, 4))),
     'look(cut(convert))': lambda v: repr(petl.look(petl.cut(petl.convert(v, 'f0', str), 'f0', 'f1'))),
 }
-VIS_LIMIT = {'look-simple': 5, 'look-minimal': 5, 'look-minimal-limit2': 2, 'lookstr-simple': 5, 'look-config-minimal': 5, 'look-config-limit': 2,
+VIS_LIMIT = {'look-vrepr-truncate-width': 5, 'look-simple-index-header': 3, 'see-vrepr-index-header': 5, 'look-config-vrepr-width': 5, 'see-config': 2,
+             'lookall-on-head': 4, 'look-simple': 5, 'look-minimal': 5, 'look-minimal-limit2': 2, 'lookstr-simple': 5, 'look-config-minimal': 5, 'look-config-limit': 2,
              'see-limit2': 2, 'display-html': 5,
              'look': 5, 'look-limit2': 2, 'lookstr': 5, 'see': 5, 'repr(wrap)': 5, 'str(wrap)': 5, '_repr_html_': 5, 'head(3)': 3, 'islice(5)': 5,
              'wrap[2]': 2, 'look(cut(convert))': 5}
